@@ -78,7 +78,10 @@ func (s bitmap64) Remove(value uint64) {
 func (s bitmap64) Xor(provider Provider[uint64]) {
 	switch typedProvider := provider.(type) {
 	case bitmap64:
-		s.bitmap.Xor(typedProvider.bitmap)
+		// roaring64's in-place Xor moves containers of its operand into the receiver without copying them, leaving
+		// both bitmaps backed by the same storage. Xor against a copy so that neither bitmap can later write through
+		// to the other.
+		s.bitmap.Xor(typedProvider.bitmap.Clone())
 
 	case Duplex[uint64]:
 		providerCopy := roaring64.New()
